@@ -231,6 +231,7 @@ func (i *interpreter) boxUnmarshal(kind string, bz value, ptr value) string {
 	}
 	switch {
 	case types.Identical(box.t, elem):
+		src = aminoInPlace(elem, *dst, src)
 		store(elem, dst, src)
 	case isPtrTo(box.t, elem):
 		p := src.(*value)
@@ -606,4 +607,40 @@ func init() {
 		externals[pkg+".Marshal"] = marshal
 		externals[pkg+".Unmarshal"] = unmarshal
 	}
+}
+
+// aminoInPlace: sdk.Int / Dec / Uint decode IN PLACE when the destination already holds a big integer
+// (Int.UnmarshalAmino calls UnmarshalText on the existing *big.Int): the existing object is updated - visibly to every
+// other holder of that pointer - and stays the destination's pointer.  Applied to the destination itself and, through
+// struct fields and array elements, to the integers it contains.
+func aminoInPlace(t types.Type, dst, src value) value {
+	switch namedPath(t) {
+	case RepoMod + "/types.Int", RepoMod + "/types.Dec", RepoMod + "/types.Uint":
+		ds, ok1 := dst.(structure)
+		ss, ok2 := src.(structure)
+		if !ok1 || !ok2 || len(ds) != 1 || len(ss) != 1 {
+			return src
+		}
+		dp, ok1 := ds[0].(*value)
+		sp, ok2 := ss[0].(*value)
+		if !ok1 || !ok2 || dp == nil || sp == nil {
+			return src
+		}
+		setBig(dp, getBig(sp))
+		return structure{dp}
+	}
+	switch u := t.Underlying().(type) {
+	case *types.Struct:
+		ds, ok1 := dst.(structure)
+		ss, ok2 := src.(structure)
+		if !ok1 || !ok2 || len(ds) != len(ss) || len(ss) != u.NumFields() {
+			return src
+		}
+		out := make(structure, len(ss))
+		for j := range ss {
+			out[j] = aminoInPlace(u.Field(j).Type(), ds[j], ss[j])
+		}
+		return out
+	}
+	return src
 }
